@@ -722,14 +722,19 @@ PROPS = {
     "C15": {
         "suites": [("print", 4000, 100000), ("fol_parse", 4000, 80000)],
         "extra": roundtrip_extra("C15", "fol"),
-        "rule": "as C14 for the target language: formulas (all connectives, quantifier prefixes, chained comparisons, sorted variables and constants, predicate names notify / forallx / existsx / andy / orb / input / spec) "
-                "as theories; user guides and specifications are covered by the text correspondence of their printers",
-        "level_text": "Partial: printers modelled exactly; quantified_atomic proved (parentheses exactly when the atomic body begins with a variable); precedence behaviour kernel-checked on instances; the pest parser is not "
-                      "modelled, the round trip is explored; three genuine defects repaired (db0baa0, 3af4e16, d0885ee: comparison_after_reverse_implication proved for the repaired printer).",
-        "level_note": PROOF_NOTE + " pest's PEG matching and Pratt parser are exercised, not modelled.",
-        "technique": "Lean 4 (printer model + lemma) + differential correspondence (text) + round-trip exploration on the real parser",
+        "rule": "(a) Display of generated formulas / specifications / user guides vs the Lean printer models, text equality; (b) fol_parse: parse::<Theory|Specification|UserGuide>() vs the Lean model of the grammar and "
+                "tree builders (accepted or not, and the tree) on printed texts, fully parenthesised renderings, re-spaced / commented variants, near-miss edits and a corpus of corner cases (corpus/fol_texts.txt: sort suffixes, "
+                "keyword boundaries, `<-` vs `< -`, chained comparisons, directions and names of annotated formulas, placeholder declarations); (c) round trip on the real pest parser as C14 for formulas (all connectives, "
+                "quantifier prefixes, chained comparisons, sorted variables and constants, predicate names notify / forallx / existsx / andy / orb / input / spec)",
+        "level_text": "Partial: printers and parser modelled exactly and tied by correspondence. Proved at the pair level: pratt_inverts_formula_parenthesisation (pest's Pratt parser with the table of pest.rs returns every formula "
+                      "from the pair sequence of its printed text: five connectives, mandatory parentheses of the mixed level <->, ->, <-, negation and quantifier prefixes in any position) and "
+                      "pratt_inverts_integer_term_parenthesisation; quantified_atomic, comparison_after_reverse_implication (the printer facts behind the repaired defects). Not proved: the character level for the target "
+                      "language (printed tokens are lexed back: sort suffixes, keyword boundaries, greedy variable lists) - covered by the fol_parse correspondence and the round-trip exploration. Three genuine defects repaired "
+                      "(db0baa0, 3af4e16, d0885ee).",
+        "level_note": PROOF_NOTE + " pest itself is modelled from its documentation and source (2.8.2) and tied by the fol_parse correspondence.",
+        "technique": "Lean 4 proof (Pratt inversion for formulas and integer terms; printer lemmas) + differential correspondence (printer text, parser trees) + round-trip exploration on the real parser",
         "design_ref": "DESIGN.md 6/C15",
-        "trusted_base": COMMON_TRUST + ["pest parser (exercised, not modelled)"],
+        "trusted_base": COMMON_TRUST + ["the Lean model of pest's PEG semantics and Pratt parser, tied by correspondence"],
         "assumptions": COMMON_ASSUME,
     },
     "C16": {
